@@ -53,7 +53,8 @@ class C03(ProgProp):
     def classify(self, case, ref, x, c, res):
         keys = [[case["v"]] + list(k) for k in sorted(c.nt.get("argval", ()))]
         res.nt_keys = keys
-        res.evals = max(1, sum(len(d.get("instrs", ())) for d in ref["dis"] if isinstance(d, dict)))
+        # operand-carrying instructions whose argval was compared (padding runs of NOPs do not count)
+        res.evals = max(1, sum(1 for d in ref["dis"] if isinstance(d, dict) for i in d.get("instrs", ()) if i.get("k")))
         for k in keys:
             if k[3] == "big":
                 res.classes.append("operand>=256:" + k[1])
